@@ -24,12 +24,18 @@ def in_soc(v):
 
 def in_exp(v, margin=1e-9):
     """coniclifts / ECOS: (x, y, z) with y >= z exp(x/z), z > 0, or z = 0, x <= 0, y >= 0.
-    True / False / None (too close)."""
+    True / False / None (within `margin` of the boundary: too close to call)"""
     x, y, z = [float(t) for t in v]
-    if z < 0:
-        return False
-    if z == 0:
-        return x <= 0 and y >= 0
+    sc = max(1.0, abs(x), abs(y), abs(z))
+    tiny = 1e-13 * sc
+    if z < -tiny:
+        return False if z < -margin * sc else None
+    if z <= tiny:
+        if x > margin * sc or y < -margin * sc:
+            return False
+        if z == 0 and x <= 0 and y >= 0:
+            return True
+        return None
     try:
         r = z * math.exp(x / z)
     except OverflowError:
@@ -43,10 +49,16 @@ def in_exp(v, margin=1e-9):
 def in_dexp(v, margin=1e-9):
     """dual of the cone above: (u, v, w) with u < 0 and -u exp(w/u) <= e v, or u = 0, v >= 0, w >= 0."""
     u, vv, w = [float(t) for t in v]
-    if u > 0:
-        return False
-    if u == 0:
-        return vv >= 0 and w >= 0
+    sc = max(1.0, abs(u), abs(vv), abs(w))
+    tiny = 1e-13 * sc
+    if u > tiny:
+        return False if u > margin * sc else None
+    if u >= -tiny:
+        if vv < -margin * sc or w < -margin * sc:
+            return False
+        if u == 0 and vv >= 0 and w >= 0:
+            return True
+        return None
     try:
         l = -u * math.exp(w / u)
     except OverflowError:
